@@ -93,6 +93,8 @@ def _run_worker(prop, cfg, timeout):
   cmd = [PY]
   if cfg.get('xdev'):
     cmd += ['-X', 'dev']
+  if cfg.get('pyopt'):
+    cmd += ['-O'] if cfg['pyopt'] == 1 else ['-OO']      # daemons started with python -O / PYTHONOPTIMIZE: asserts are compiled away
   cmd += ['-m', 'vlib.worker', prop, json.dumps(cfg), out]
   t0 = time.time()
   try:
